@@ -198,6 +198,9 @@ def tlc_scenario_to_harness(js, sid, driver):
                         flags["replace"] = True      # helm template always sets Replace (no name check)
                     # helm template --include-crds only changes what is printed
                     flags["includeCRDs"] = (h // 360) % 2 == 0 and bool(m.get("clientOnly") or flags.get("tpl"))
+            if flags.get("dryRun") and m["kind"] in ("uninstall", "rollback"):
+                h2 = int(hashlib.sha1(("%s/%d/u" % (sid, len(sc["steps"]))).encode()).hexdigest(), 16)
+                flags["dryTrue"] = h2 % 2 == 0      # command line only: --dry-run=true instead of --dry-run
             s = {"op": m["kind"], "flags": flags, "proc": st.get("p", 1)}
             if m["chart"] != "none":
                 s["chart"] = m["chart"]
